@@ -1,4 +1,10 @@
 
+(** val negb : bool -> bool **)
+
+let negb = function
+| true -> false
+| false -> true
+
 type nat =
 | O
 | S of nat
@@ -375,6 +381,20 @@ module Coq_Pos =
   | N0 -> p
   | Npos n1 -> iter (fun x -> XO x) p n1
 
+  (** val testbit : positive -> n -> bool **)
+
+  let rec testbit p n0 =
+    match p with
+    | XI p0 -> (match n0 with
+                | N0 -> true
+                | Npos n1 -> testbit p0 (pred_N n1))
+    | XO p0 -> (match n0 with
+                | N0 -> false
+                | Npos n1 -> testbit p0 (pred_N n1))
+    | XH -> (match n0 with
+             | N0 -> true
+             | Npos _ -> false)
+
   (** val iter_op : ('a1 -> 'a1 -> 'a1) -> positive -> 'a1 -> 'a1 **)
 
   let rec iter_op op p a =
@@ -600,6 +620,13 @@ module N =
   | N0 -> a
   | Npos p -> Coq_Pos.iter div2 a p
 
+  (** val testbit : n -> n -> bool **)
+
+  let testbit a n0 =
+    match a with
+    | N0 -> false
+    | Npos p -> Coq_Pos.testbit p n0
+
   (** val to_nat : n -> nat **)
 
   let to_nat = function
@@ -611,6 +638,12 @@ module N =
   let of_nat = function
   | O -> N0
   | S n' -> Npos (Coq_Pos.of_succ_nat n')
+
+  (** val b2n : bool -> n **)
+
+  let b2n = function
+  | true -> Npos XH
+  | false -> N0
  end
 
 module Z =
@@ -790,11 +823,26 @@ module Z =
     let (_, r) = div_eucl a b in r
  end
 
+(** val last : 'a1 list -> 'a1 -> 'a1 **)
+
+let rec last l d =
+  match l with
+  | [] -> d
+  | a :: l0 -> (match l0 with
+                | [] -> a
+                | _ :: _ -> last l0 d)
+
 (** val rev : 'a1 list -> 'a1 list **)
 
 let rec rev = function
 | [] -> []
 | x :: l' -> app (rev l') (x :: [])
+
+(** val concat : 'a1 list list -> 'a1 list **)
+
+let rec concat = function
+| [] -> []
+| x :: l0 -> app x (concat l0)
 
 (** val map : ('a1 -> 'a2) -> 'a1 list -> 'a2 list **)
 
@@ -933,6 +981,12 @@ let rec firstnN i = function
 | [] -> []
 | x :: l' -> if N.eqb i N0 then [] else x :: (firstnN (N.pred i) l')
 
+(** val skipnN : n -> 'a1 list -> 'a1 list **)
+
+let rec skipnN i l = match l with
+| [] -> []
+| _ :: l' -> if N.eqb i N0 then l else skipnN (N.pred i) l'
+
 (** val setN : 'a1 list -> n -> 'a1 -> 'a1 list **)
 
 let rec setN l i v =
@@ -988,6 +1042,12 @@ let rec maxN = function
 let rec sumN = function
 | [] -> N0
 | x :: l' -> N.add x (sumN l')
+
+(** val seqN : n -> nat -> n list **)
+
+let rec seqN start = function
+| O -> []
+| S n' -> start :: (seqN (N.add start (Npos XH)) n')
 
 (** val rank_spec : n list -> n -> n -> n **)
 
@@ -1225,6 +1285,147 @@ let sIW_NOTFOUND =
 let sIW_BYTE_MASK =
   Npos (XI (XI (XI (XI (XI (XI (XI XH)))))))
 
+(** val bV_LINE_BITS : n **)
+
+let bV_LINE_BITS =
+  Npos (XO (XO (XO (XO (XO (XO (XO (XO (XO XH)))))))))
+
+(** val bV_PUSH_MOD : n **)
+
+let bV_PUSH_MOD =
+  Npos (XO (XO (XO (XO (XO (XO (XO (XO (XO XH)))))))))
+
+(** val bV_EXT_ROUND : n **)
+
+let bV_EXT_ROUND =
+  Npos (XI (XI (XI (XI (XI (XI (XI (XI XH))))))))
+
+(** val bV_EXT_DIV : n **)
+
+let bV_EXT_DIV =
+  Npos (XO (XO (XO (XO (XO (XO (XO (XO (XO XH)))))))))
+
+(** val bV_SET_SHIFT : n **)
+
+let bV_SET_SHIFT =
+  Npos (XI (XO (XO XH)))
+
+(** val bV_SET_MASK : n **)
+
+let bV_SET_MASK =
+  Npos (XI (XI (XI (XI (XI (XI (XI (XI XH))))))))
+
+(** val bV_SETBITS_SHIFT : n **)
+
+let bV_SETBITS_SHIFT =
+  Npos (XI (XO (XO XH)))
+
+(** val bV_SETBITS_MOD : n **)
+
+let bV_SETBITS_MOD =
+  Npos (XO (XO (XO (XO (XO (XO (XO (XO (XO XH)))))))))
+
+(** val rSN_BLOCK_SIZE : n **)
+
+let rSN_BLOCK_SIZE =
+  Npos (XO (XO (XO XH)))
+
+(** val rSN_ONES_PER_HINT : n **)
+
+let rSN_ONES_PER_HINT =
+  Npos (XO (XO (XO (XO (XO (XO (XO (XO (XO (XO XH))))))))))
+
+(** val rSN_ZEROS_PER_HINT : n **)
+
+let rSN_ZEROS_PER_HINT =
+  Npos (XO (XO (XO (XO (XO (XO (XO (XO (XO (XO XH))))))))))
+
+(** val rSN_SUB_BITS : n **)
+
+let rSN_SUB_BITS =
+  Npos (XI (XO (XO XH)))
+
+(** val rSN_SUB_BITS_TAIL : n **)
+
+let rSN_SUB_BITS_TAIL =
+  Npos (XI (XO (XO XH)))
+
+(** val rSN_SBR_BITS : n **)
+
+let rSN_SBR_BITS =
+  Npos (XI (XO (XO XH)))
+
+(** val rSN_SBR_MASK : n **)
+
+let rSN_SBR_MASK =
+  Npos (XI (XI (XI (XI (XI (XI (XI (XI XH))))))))
+
+(** val rSW_BLOCK_WORDS : n **)
+
+let rSW_BLOCK_WORDS =
+  Npos (XO (XO (XO XH)))
+
+(** val rSW_SUPERBLOCK_WORDS : n **)
+
+let rSW_SUPERBLOCK_WORDS =
+  Npos (XO (XO (XO (XO (XO (XO XH))))))
+
+(** val rSW_ONES_PER_HINT : n **)
+
+let rSW_ONES_PER_HINT =
+  Npos (XO (XO (XO (XO (XO (XO (XO (XO (XO (XO (XO (XO (XO XH)))))))))))))
+
+(** val rSW_ZEROS_PER_HINT : n **)
+
+let rSW_ZEROS_PER_HINT =
+  Npos (XO (XO (XO (XO (XO (XO (XO (XO (XO (XO (XO (XO (XO XH)))))))))))))
+
+(** val rSW_BLK_BITS : n **)
+
+let rSW_BLK_BITS =
+  Npos (XO (XO (XI XH)))
+
+(** val rSW_BLK_BITS_TAIL : n **)
+
+let rSW_BLK_BITS_TAIL =
+  Npos (XO (XO (XI XH)))
+
+(** val rSW_SB_SHIFT : n **)
+
+let rSW_SB_SHIFT =
+  Npos (XO (XO (XI (XO (XI (XO XH))))))
+
+(** val rSW_SB_SHIFT_RD : n **)
+
+let rSW_SB_SHIFT_RD =
+  Npos (XO (XO (XI (XO (XI (XO XH))))))
+
+(** val rSW_BLK_BITS_RD : n **)
+
+let rSW_BLK_BITS_RD =
+  Npos (XO (XO (XI XH)))
+
+(** val rSW_BLK_MASK : n **)
+
+let rSW_BLK_MASK =
+  Npos (XI (XI (XI (XI (XI (XI (XI (XI (XI (XI (XI XH)))))))))))
+
+(** val dA_BLOCK : n **)
+
+let dA_BLOCK =
+  Npos (XO (XO (XO (XO (XO (XO (XO (XO (XO (XO XH))))))))))
+
+(** val dA_SUBBLOCK : n **)
+
+let dA_SUBBLOCK =
+  Npos (XO (XO (XO (XO (XO XH)))))
+
+(** val dA_MAX_DIST : n **)
+
+let dA_MAX_DIST =
+  Npos (XO (XO (XO (XO (XO (XO (XO (XO (XO (XO (XO (XO (XO (XO (XO (XO
+    XH))))))))))))))))
+
 (** val lINE_SYMS : n **)
 
 let lINE_SYMS =
@@ -1277,8 +1478,8 @@ let qvb_push b symbol =
     then app b.qv_data (zero_line :: [])
     else b.qv_data
   in
-  bind (ounwrap (last_opt data)) (fun last -> Val { qv_data =
-    (set_last data (line_set_symbol last symbol pos_in_last_line));
+  bind (ounwrap (last_opt data)) (fun last0 -> Val { qv_data =
+    (set_last data (line_set_symbol last0 symbol pos_in_last_line));
     qv_position = (N.add b.qv_position pUSH_POS_STEP) })
 
 (** val as_u8 : z -> n **)
@@ -1420,8 +1621,8 @@ let rsb_boundaries bsize st =
   then let block_id = N.modulo (N.div i bsize) rS_BLOCKS_IN_SB in
        (match st1.b_sbs with
         | [] -> Fault Panic
-        | last :: rest ->
-          bind (sb_set_block_counters last block_id st1.b_bc) (fun last' ->
+        | last0 :: rest ->
+          bind (sb_set_block_counters last0 block_id st1.b_bc) (fun last' ->
             Val { b_i = i; b_sbc = st1.b_sbc; b_bc = st1.b_bc; b_occ =
             st1.b_occ; b_samples = st1.b_samples; b_sbs = (last' :: rest) }))
   else Val st1
@@ -1476,8 +1677,8 @@ let rss_new bsize syms =
           (if N.ltb next_block_id rS_BLOCKS_IN_SB
            then (match st.b_sbs with
                  | [] -> Fault Panic
-                 | last :: rest ->
-                   bind (sb_set_block_counters last next_block_id st.b_bc)
+                 | last0 :: rest ->
+                   bind (sb_set_block_counters last0 next_block_id st.b_bc)
                      (fun last' -> Val (last' :: rest)))
            else Val st.b_sbs) (fun sbs ->
           let nsb = len sbs in
@@ -1527,15 +1728,15 @@ let rss_rank_block bsize r symbol i =
 
 (** val rss_scan : rssupport -> n -> n -> n -> n -> n -> nat -> n outcome **)
 
-let rec rss_scan r symbol i first last step = function
+let rec rss_scan r symbol i first last0 step = function
 | O -> Fault OutOfFuel
 | S f ->
-  if N.ltb first last
+  if N.ltb first last0
   then bind (idx r.rs_superblocks first) (fun sb ->
          bind (sb_get_superblock_counter sb symbol) (fun c ->
            if N.leb i c
            then Val first
-           else rss_scan r symbol i (N.add first step) last step f))
+           else rss_scan r symbol i (N.add first step) last0 step f))
   else Val first
 
 (** val rss_select_block : n -> rssupport -> n -> n -> (n * n) outcome **)
@@ -1546,14 +1747,14 @@ let rss_select_block bsize r symbol i =
     bind (idx r.rs_samples symbol) (fun samples ->
       bind (idx samples sampled_i) (fun first0 ->
         bind (idx samples (N.add sampled_i (Npos XH))) (fun last0 ->
-          let last = N.add (Npos XH) last0 in
-          bind (osub last first0) (fun d ->
+          let last1 = N.add (Npos XH) last0 in
+          bind (osub last1 first0) (fun d ->
             let step = N.add (N.sqrt d) (Npos XH) in
             let fuel = S (length r.rs_superblocks) in
-            bind (rss_scan r symbol i first0 last step fuel) (fun first1 ->
+            bind (rss_scan r symbol i first0 last1 step fuel) (fun first1 ->
               bind (osub first1 step) (fun first2 ->
                 bind
-                  (rss_scan r symbol i first2 last (Npos XH)
+                  (rss_scan r symbol i first2 last1 (Npos XH)
                     (add (S (N.to_nat step)) fuel)) (fun first3 ->
                   bind (osub first3 (Npos XH)) (fun first4 ->
                     let position = N.mul (N.mul first4 bsize) rS_BLOCKS_IN_SB
@@ -2882,6 +3083,11 @@ let popcount = function
 | N0 -> N0
 | Npos p -> popcount_pos p
 
+(** val bits_of : nat -> n -> n list **)
+
+let bits_of w x =
+  map (fun i -> N.b2n (N.testbit x i)) (seqN N0 w)
+
 (** val m64 : n **)
 
 let m64 =
@@ -3109,3 +3315,1278 @@ let pack_qline syms =
                                                    (S (S (S (S
                                                    O))))))))))))))))))))))))))))))))))))))))))))))))))))))))))))))))))))))))))))))))))))))))))))))))))))))))))))))))))))))))))))))))
                                                    syms)) :: [])))
+
+type bitvec = { bv_words : n list; bv_nbits : n; bv_nones : n }
+
+(** val bv_empty : bitvec **)
+
+let bv_empty =
+  { bv_words = []; bv_nbits = N0; bv_nones = N0 }
+
+(** val bvl_set_symbol : n list -> n -> n -> n -> n list outcome **)
+
+let bvl_set_symbol ws line symbol i =
+  bind (oassert (N.ltb i bV_LINE_BITS)) (fun _ ->
+    let widx =
+      N.add (N.mul line (Npos (XO (XO (XO XH)))))
+        (N.shiftr i (Npos (XO (XI XH))))
+    in
+    bind (idx ws widx) (fun w ->
+      let mask0 =
+        N.shiftl (Npos XH)
+          (N.modulo i (Npos (XO (XO (XO (XO (XO (XO XH))))))))
+      in
+      let w1 = N.coq_lxor w (N.coq_land w mask0) in
+      let w2 =
+        N.coq_lxor w1
+          (N.shiftl (N.coq_land symbol (Npos XH))
+            (N.modulo i (Npos (XO (XO (XO (XO (XO (XO XH)))))))))
+      in
+      Val (setN ws widx w2)))
+
+(** val bv_get_bit_slice : n list -> n -> bool outcome **)
+
+let bv_get_bit_slice ws index =
+  let word = N.shiftr index (Npos (XO (XI XH))) in
+  let pos_in_word = N.coq_land index (Npos (XI (XI (XI (XI (XI XH)))))) in
+  bind (idx ws word) (fun w -> Val
+    (N.eqb (N.coq_land (N.shiftr w pos_in_word) (Npos XH)) (Npos XH)))
+
+(** val bv_get_bits_slice : n list -> n -> n -> n outcome **)
+
+let bv_get_bits_slice ws index len0 =
+  let block = N.shiftr index (Npos (XO (XI XH))) in
+  let shift = N.coq_land index (Npos (XI (XI (XI (XI (XI XH)))))) in
+  bind
+    (if N.eqb len0 (Npos (XO (XO (XO (XO (XO (XO XH)))))))
+     then Val (N.sub m64 (Npos XH))
+     else bind (oshl (Npos (XO (XO (XO (XO (XO (XO XH))))))) (Npos XH) len0)
+            (fun s -> osub s (Npos XH))) (fun mask0 ->
+    if N.leb (N.add shift len0) (Npos (XO (XO (XO (XO (XO (XO XH)))))))
+    then bind (idx ws block) (fun w -> Val
+           (N.coq_land (N.shiftr w shift) mask0))
+    else bind (idx ws block) (fun w ->
+           bind (idx ws (N.add block (Npos XH))) (fun w' ->
+             bind (osub (Npos (XO (XO (XO (XO (XO (XO XH))))))) shift)
+               (fun sh ->
+               bind (oshl (Npos (XO (XO (XO (XO (XO (XO XH))))))) w' sh)
+                 (fun hi -> Val
+                 (N.coq_lor (N.shiftr w shift) (N.coq_land hi mask0)))))))
+
+(** val bv_len : bitvec -> n **)
+
+let bv_len b =
+  b.bv_nbits
+
+(** val bv_is_empty : bitvec -> bool **)
+
+let bv_is_empty b =
+  N.eqb b.bv_nbits N0
+
+(** val bv_count_ones : bitvec -> n **)
+
+let bv_count_ones b =
+  b.bv_nones
+
+(** val bv_count_zeros : bitvec -> n outcome **)
+
+let bv_count_zeros b =
+  osub b.bv_nbits b.bv_nones
+
+(** val bv_get_unchecked : bitvec -> n -> bool outcome **)
+
+let bv_get_unchecked b i =
+  bv_get_bit_slice b.bv_words i
+
+(** val bv_get : bitvec -> n -> bool option outcome **)
+
+let bv_get b i =
+  if N.leb b.bv_nbits i
+  then Val None
+  else bind (bv_get_unchecked b i) (fun v -> Val (Some v))
+
+(** val bv_get_bits : bool -> bitvec -> n -> n -> n option outcome **)
+
+let bv_get_bits strict b index len0 =
+  let past =
+    if N.ltb (N.add index len0)
+         (N.pow (Npos (XO XH)) (Npos (XO (XO (XO (XO (XO (XO XH))))))))
+    then if strict
+         then N.leb b.bv_nbits (N.add index len0)
+         else N.ltb b.bv_nbits (N.add index len0)
+    else true
+  in
+  if (||)
+       ((||) (N.eqb len0 N0)
+         (N.ltb (Npos (XO (XO (XO (XO (XO (XO XH))))))) len0)) past
+  then Val None
+  else bind (bv_get_bits_slice b.bv_words index len0) (fun v -> Val (Some v))
+
+(** val bv_get_bits_unchecked : bitvec -> n -> n -> n outcome **)
+
+let bv_get_bits_unchecked b index len0 =
+  bv_get_bits_slice b.bv_words index len0
+
+(** val bv_get_word : bitvec -> n -> n outcome **)
+
+let bv_get_word b i =
+  idx b.bv_words i
+
+(** val bvm_push : bitvec -> bool -> bitvec outcome **)
+
+let bvm_push b bit =
+  let pos_in_line = N.modulo b.bv_nbits bV_PUSH_MOD in
+  let ws =
+    if N.eqb pos_in_line N0
+    then app b.bv_words (repeat N0 (S (S (S (S (S (S (S (S O)))))))))
+    else b.bv_words
+  in
+  bind
+    (if bit
+     then if N.eqb (len ws) N0
+          then Val ws
+          else bvl_set_symbol ws
+                 (N.sub (N.div (len ws) (Npos (XO (XO (XO XH))))) (Npos XH))
+                 (Npos XH) pos_in_line
+     else Val ws) (fun ws' ->
+    bind (oadd (Npos (XO (XO (XO (XO (XO (XO XH))))))) b.bv_nbits (Npos XH))
+      (fun nb -> Val { bv_words = ws'; bv_nbits = nb; bv_nones =
+      (if bit then N.add b.bv_nones (Npos XH) else b.bv_nones) }))
+
+(** val bvm_append_loop : bitvec -> n -> n -> nat -> bitvec outcome **)
+
+let rec bvm_append_loop b bits i = function
+| O -> Val b
+| S f ->
+  bind
+    (bvm_push b (N.eqb (N.coq_land (N.shiftr bits i) (Npos XH)) (Npos XH)))
+    (fun b' -> bvm_append_loop b' bits (N.add i (Npos XH)) f)
+
+(** val bvm_append_bits : bitvec -> n -> n -> bitvec outcome **)
+
+let bvm_append_bits b bits len0 =
+  bind
+    (oassert
+      ((||) (N.eqb len0 (Npos (XO (XO (XO (XO (XO (XO XH))))))))
+        (N.eqb
+          (if N.ltb len0 (Npos (XO (XO (XO (XO (XO (XO XH)))))))
+           then N.shiftr bits len0
+           else Npos XH) N0))) (fun _ ->
+    bind (oassert (N.leb len0 (Npos (XO (XO (XO (XO (XO (XO XH)))))))))
+      (fun _ ->
+      if N.eqb len0 N0
+      then Val b
+      else bvm_append_loop b bits N0 (N.to_nat len0)))
+
+(** val resize_words : n list -> n -> n list **)
+
+let resize_words ws n0 =
+  if N.leb n0 (len ws)
+  then firstnN n0 ws
+  else app ws (repeat N0 (N.to_nat (N.sub n0 (len ws))))
+
+(** val bvm_extend_with_zeros : bitvec -> n -> bitvec outcome **)
+
+let bvm_extend_with_zeros b n0 =
+  bind (oadd (Npos (XO (XO (XO (XO (XO (XO XH))))))) b.bv_nbits n0)
+    (fun nb ->
+    bind (oadd (Npos (XO (XO (XO (XO (XO (XO XH))))))) nb bV_EXT_ROUND)
+      (fun t ->
+      let new_size = N.div t bV_EXT_DIV in
+      Val { bv_words =
+      (resize_words b.bv_words (N.mul new_size (Npos (XO (XO (XO XH))))));
+      bv_nbits = nb; bv_nones = b.bv_nones }))
+
+(** val bvm_set : bitvec -> n -> bool -> bitvec outcome **)
+
+let bvm_set b index bit =
+  bind (oassert (N.ltb index b.bv_nbits)) (fun _ ->
+    bind (bv_get_unchecked b index) (fun cur ->
+      bind
+        (if (&&) bit (negb cur)
+         then Val (N.add b.bv_nones (Npos XH))
+         else if (&&) (negb bit) cur
+              then osub b.bv_nones (Npos XH)
+              else Val b.bv_nones) (fun ones ->
+        let dl = N.shiftr index bV_SET_SHIFT in
+        let pos_in_dl = N.coq_land index bV_SET_MASK in
+        bind
+          (if N.ltb (N.mul dl (Npos (XO (XO (XO XH))))) (len b.bv_words)
+           then Val ()
+           else Fault Panic) (fun _ ->
+          bind
+            (bvl_set_symbol b.bv_words dl (if bit then Npos XH else N0)
+              pos_in_dl) (fun ws -> Val { bv_words = ws; bv_nbits =
+            b.bv_nbits; bv_nones = ones })))))
+
+(** val bvm_set_bits_loop : n list -> n -> n -> n -> nat -> n list outcome **)
+
+let rec bvm_set_bits_loop ws index bits i = function
+| O -> Val ws
+| S f ->
+  let dl = N.shiftr (N.add index i) bV_SETBITS_SHIFT in
+  bind
+    (if N.ltb (N.mul dl (Npos (XO (XO (XO XH))))) (len ws)
+     then Val ()
+     else Fault Panic) (fun _ ->
+    bind
+      (bvl_set_symbol ws dl (N.coq_land (N.shiftr bits i) (Npos XH))
+        (N.modulo (N.add index i) bV_SETBITS_MOD)) (fun ws' ->
+      bvm_set_bits_loop ws' index bits (N.add i (Npos XH)) f))
+
+(** val bvm_set_bits : bitvec -> n -> n -> n -> bitvec outcome **)
+
+let bvm_set_bits b index len0 bits =
+  bind (oadd (Npos (XO (XO (XO (XO (XO (XO XH))))))) index len0) (fun e ->
+    bind (oassert (N.leb e b.bv_nbits)) (fun _ ->
+      bind
+        (oassert
+          ((||) (N.eqb len0 (Npos (XO (XO (XO (XO (XO (XO XH))))))))
+            (N.eqb
+              (if N.ltb len0 (Npos (XO (XO (XO (XO (XO (XO XH)))))))
+               then N.shiftr bits len0
+               else Npos XH) N0))) (fun _ ->
+        bind (oassert (N.leb len0 (Npos (XO (XO (XO (XO (XO (XO XH)))))))))
+          (fun _ ->
+          if N.eqb len0 N0
+          then Val b
+          else bind (bv_get_bits_slice b.bv_words index len0) (fun old ->
+                 bind (osub b.bv_nones (popcount old)) (fun o1 ->
+                   let ones = N.add o1 (popcount bits) in
+                   bind
+                     (bvm_set_bits_loop b.bv_words index bits N0
+                       (N.to_nat len0)) (fun ws -> Val { bv_words = ws;
+                     bv_nbits = b.bv_nbits; bv_nones = ones })))))))
+
+(** val bvm_extend_bools : bitvec -> bool list -> bitvec outcome **)
+
+let rec bvm_extend_bools b = function
+| [] -> Val b
+| x :: r -> bind (bvm_push b x) (fun b' -> bvm_extend_bools b' r)
+
+(** val bvm_extend_positions : bitvec -> n list -> bitvec outcome **)
+
+let rec bvm_extend_positions b = function
+| [] -> Val b
+| p :: r ->
+  bind
+    (if N.leb b.bv_nbits p
+     then bind (oadd (Npos (XO (XO (XO (XO (XO (XO XH))))))) p (Npos XH))
+            (fun p1 ->
+            bind (osub p1 b.bv_nbits) (fun d -> bvm_extend_with_zeros b d))
+     else Val b) (fun b1 ->
+    bind (bvm_set b1 p true) (fun b2 -> bvm_extend_positions b2 r))
+
+(** val bv_from_bools : bool list -> bitvec outcome **)
+
+let bv_from_bools bs =
+  bvm_extend_bools bv_empty bs
+
+(** val bv_from_positions : n list -> bitvec outcome **)
+
+let bv_from_positions ps =
+  bvm_extend_positions bv_empty ps
+
+(** val bvm_with_zeros : n -> bitvec outcome **)
+
+let bvm_with_zeros n0 =
+  bvm_extend_with_zeros bv_empty n0
+
+(** val bvit_next : bitvec -> n -> (bool option * n) outcome **)
+
+let bvit_next b i =
+  if N.ltb i b.bv_nbits
+  then bind (bv_get_bit_slice b.bv_words i) (fun v -> Val ((Some v),
+         (N.add i (Npos XH))))
+  else Val (None, i)
+
+(** val bvit_len : bitvec -> n -> n outcome **)
+
+let bvit_len b i =
+  osub b.bv_nbits i
+
+(** val bvinto_next : bitvec -> n -> (bool option * n) outcome **)
+
+let bvinto_next b i =
+  bind (bv_get b i) (fun v ->
+    match v with
+    | Some _ -> Val (v, (N.add i (Npos XH)))
+    | None -> Val (None, i))
+
+type positer = { pi_cur_position : n; pi_cur_word_pos : n; pi_cur_word : n }
+
+(** val pi_new : positer **)
+
+let pi_new =
+  { pi_cur_position = N0; pi_cur_word_pos = N0; pi_cur_word = N0 }
+
+(** val word_for : bool -> n -> n **)
+
+let word_for bit w =
+  if bit then w else N.coq_lxor w (N.sub m64 (Npos XH))
+
+(** val pi_with_pos : bool -> bitvec -> n -> positer **)
+
+let pi_with_pos bit b pos =
+  let cwp = N.shiftr pos (Npos (XO (XI XH))) in
+  let cw =
+    match nthN b.bv_words cwp with
+    | Some w -> word_for bit w
+    | None -> N0
+  in
+  { pi_cur_position = pos; pi_cur_word_pos = (N.add cwp (Npos XH));
+  pi_cur_word =
+  (N.shiftr cw (N.modulo pos (Npos (XO (XO (XO (XO (XO (XO XH))))))))) }
+
+(** val ctz_pos : positive -> n **)
+
+let rec ctz_pos = function
+| XO q -> N.add (Npos XH) (ctz_pos q)
+| _ -> N0
+
+(** val ctz : n -> n **)
+
+let ctz = function
+| N0 -> Npos (XO (XO (XO (XO (XO (XO XH))))))
+| Npos p -> ctz_pos p
+
+(** val pi_refill : bool -> n list -> positer -> nat -> positer option **)
+
+let rec pi_refill bit ws st fuel =
+  if N.eqb st.pi_cur_word N0
+  then (match fuel with
+        | O -> None
+        | S f ->
+          (match nthN ws st.pi_cur_word_pos with
+           | Some w ->
+             pi_refill bit ws { pi_cur_position =
+               (N.shiftl st.pi_cur_word_pos (Npos (XO (XI XH))));
+               pi_cur_word_pos = (N.add st.pi_cur_word_pos (Npos XH));
+               pi_cur_word = (word_for bit w) } f
+           | None -> None))
+  else Some st
+
+(** val pi_next : bool -> bitvec -> positer -> n option * positer **)
+
+let pi_next bit b st =
+  if N.leb b.bv_nbits st.pi_cur_position
+  then (None, st)
+  else (match pi_refill bit b.bv_words st (S (length b.bv_words)) with
+        | Some st1 ->
+          let l = ctz st1.pi_cur_word in
+          let pos = N.add st1.pi_cur_position l in
+          let cw =
+            if N.leb (Npos (XI (XI (XI (XI (XI XH)))))) l
+            then N0
+            else N.shiftr st1.pi_cur_word (N.add l (Npos XH))
+          in
+          let st2 = { pi_cur_position = (N.add pos (Npos XH));
+            pi_cur_word_pos = st1.pi_cur_word_pos; pi_cur_word = cw }
+          in
+          if N.leb b.bv_nbits pos then (None, st2) else ((Some pos), st2)
+        | None ->
+          (None, { pi_cur_position = st.pi_cur_position; pi_cur_word_pos =
+            (N.max st.pi_cur_word_pos (len b.bv_words)); pi_cur_word = N0 }))
+
+(** val pi_collect : bool -> bitvec -> positer -> nat -> n list **)
+
+let rec pi_collect bit b st = function
+| O -> []
+| S f ->
+  let (o, st') = pi_next bit b st in
+  (match o with
+   | Some p -> p :: (pi_collect bit b st' f)
+   | None -> [])
+
+(** val bv_abs : bitvec -> bool list **)
+
+let bv_abs b =
+  map (fun x -> N.eqb x (Npos XH))
+    (firstnN b.bv_nbits
+      (concat
+        (map
+          (bits_of (S (S (S (S (S (S (S (S (S (S (S (S (S (S (S (S (S (S (S
+            (S (S (S (S (S (S (S (S (S (S (S (S (S (S (S (S (S (S (S (S (S (S
+            (S (S (S (S (S (S (S (S (S (S (S (S (S (S (S (S (S (S (S (S (S (S
+            (S
+            O)))))))))))))))))))))))))))))))))))))))))))))))))))))))))))))))))
+          b.bv_words)))
+
+(** val notw : n -> n **)
+
+let notw w =
+  N.coq_lxor w (N.sub m64 (Npos XH))
+
+(** val line_of : n list -> n -> n list **)
+
+let line_of ws b =
+  firstn (S (S (S (S (S (S (S (S O))))))))
+    (skipnN (N.mul b (Npos (XO (XO (XO XH))))) ws)
+
+(** val line_n_ones : n list -> n **)
+
+let line_n_ones l =
+  sumN (map popcount l)
+
+(** val bline_rank1_loop : n list -> n -> bool -> n **)
+
+let rec bline_rank1_loop l left neg =
+  match l with
+  | [] -> N0
+  | w :: r ->
+    if neg
+    then N0
+    else let mask0 =
+           if N.ltb (Npos (XI (XI (XI (XI (XI XH)))))) left
+           then N.sub m64 (Npos XH)
+           else N.sub (N.shiftl (Npos XH) left) (Npos XH)
+         in
+         N.add (popcount (N.coq_land w mask0))
+           (if N.ltb left (Npos (XO (XO (XO (XO (XO (XO XH)))))))
+            then N0
+            else bline_rank1_loop r
+                   (N.sub left (Npos (XO (XO (XO (XO (XO (XO XH)))))))) false)
+
+(** val bline_rank1 : n list -> n -> n option **)
+
+let bline_rank1 l i =
+  if N.ltb (Npos (XO (XO (XO (XO (XO (XO (XO (XO (XO XH)))))))))) i
+  then None
+  else Some (bline_rank1_loop l i false)
+
+(** val bline_select_loop : bool -> n list -> n -> n -> n -> n outcome **)
+
+let rec bline_select_loop neg l i rank off =
+  match l with
+  | [] -> Val off
+  | w :: r ->
+    let w0 = if neg then notw w else w in
+    let kp = popcount w0 in
+    bind (osub i rank) (fun d ->
+      if N.ltb d kp
+      then bind (select_in_word w0 d) (fun s -> Val (N.add off s))
+      else bline_select_loop neg r i (N.add rank kp)
+             (N.add off (Npos (XO (XO (XO (XO (XO (XO XH)))))))))
+
+type rsnarrow = { rsn_bv : bitvec; rsn_pairs : n list; rsn_samples0 : 
+                  n list; rsn_samples1 : n list }
+
+type rsn_state = { ns_pairs : n list; ns_next_rank : n; ns_cur_subrank : 
+                   n; ns_subranks : n; ns_s0 : n list; ns_s1 : n list;
+                   ns_hint0 : n; ns_hint1 : n; ns_zeros : n }
+
+(** val rsn_word : rsn_state -> n -> n -> rsn_state **)
+
+let rsn_word st g word =
+  let b = N.div g (Npos (XO (XO (XO XH)))) in
+  let shift = N.modulo g rSN_BLOCK_SIZE in
+  let pop = popcount word in
+  let subranks =
+    if N.leb (Npos XH) shift
+    then N.coq_lor (N.modulo (N.shiftl st.ns_subranks rSN_SUB_BITS) m64)
+           st.ns_cur_subrank
+    else st.ns_subranks
+  in
+  let next_rank = N.add st.ns_next_rank pop in
+  let cur_subrank = N.add st.ns_cur_subrank pop in
+  if N.ltb st.ns_hint1 (N.div next_rank rSN_ONES_PER_HINT)
+  then let s1 = b :: st.ns_s1 in
+       let h1 = N.add st.ns_hint1 (Npos XH) in
+       let zeros =
+         N.add st.ns_zeros (N.sub (Npos (XO (XO (XO (XO (XO (XO XH))))))) pop)
+       in
+       if N.ltb st.ns_hint0 (N.div zeros rSN_ZEROS_PER_HINT)
+       then let s0 = b :: st.ns_s0 in
+            let h0 = N.add st.ns_hint0 (Npos XH) in
+            if N.eqb shift (N.sub rSN_BLOCK_SIZE (Npos XH))
+            then { ns_pairs = (next_rank :: (subranks :: st.ns_pairs));
+                   ns_next_rank = next_rank; ns_cur_subrank = N0;
+                   ns_subranks = N0; ns_s0 = s0; ns_s1 = s1; ns_hint0 = h0;
+                   ns_hint1 = h1; ns_zeros = zeros }
+            else { ns_pairs = st.ns_pairs; ns_next_rank = next_rank;
+                   ns_cur_subrank = cur_subrank; ns_subranks = subranks;
+                   ns_s0 = s0; ns_s1 = s1; ns_hint0 = h0; ns_hint1 = h1;
+                   ns_zeros = zeros }
+       else let s0 = st.ns_s0 in
+            let h0 = st.ns_hint0 in
+            if N.eqb shift (N.sub rSN_BLOCK_SIZE (Npos XH))
+            then { ns_pairs = (next_rank :: (subranks :: st.ns_pairs));
+                   ns_next_rank = next_rank; ns_cur_subrank = N0;
+                   ns_subranks = N0; ns_s0 = s0; ns_s1 = s1; ns_hint0 = h0;
+                   ns_hint1 = h1; ns_zeros = zeros }
+            else { ns_pairs = st.ns_pairs; ns_next_rank = next_rank;
+                   ns_cur_subrank = cur_subrank; ns_subranks = subranks;
+                   ns_s0 = s0; ns_s1 = s1; ns_hint0 = h0; ns_hint1 = h1;
+                   ns_zeros = zeros }
+  else let s1 = st.ns_s1 in
+       let h1 = st.ns_hint1 in
+       let zeros =
+         N.add st.ns_zeros (N.sub (Npos (XO (XO (XO (XO (XO (XO XH))))))) pop)
+       in
+       if N.ltb st.ns_hint0 (N.div zeros rSN_ZEROS_PER_HINT)
+       then let s0 = b :: st.ns_s0 in
+            let h0 = N.add st.ns_hint0 (Npos XH) in
+            if N.eqb shift (N.sub rSN_BLOCK_SIZE (Npos XH))
+            then { ns_pairs = (next_rank :: (subranks :: st.ns_pairs));
+                   ns_next_rank = next_rank; ns_cur_subrank = N0;
+                   ns_subranks = N0; ns_s0 = s0; ns_s1 = s1; ns_hint0 = h0;
+                   ns_hint1 = h1; ns_zeros = zeros }
+            else { ns_pairs = st.ns_pairs; ns_next_rank = next_rank;
+                   ns_cur_subrank = cur_subrank; ns_subranks = subranks;
+                   ns_s0 = s0; ns_s1 = s1; ns_hint0 = h0; ns_hint1 = h1;
+                   ns_zeros = zeros }
+       else let s0 = st.ns_s0 in
+            let h0 = st.ns_hint0 in
+            if N.eqb shift (N.sub rSN_BLOCK_SIZE (Npos XH))
+            then { ns_pairs = (next_rank :: (subranks :: st.ns_pairs));
+                   ns_next_rank = next_rank; ns_cur_subrank = N0;
+                   ns_subranks = N0; ns_s0 = s0; ns_s1 = s1; ns_hint0 = h0;
+                   ns_hint1 = h1; ns_zeros = zeros }
+            else { ns_pairs = st.ns_pairs; ns_next_rank = next_rank;
+                   ns_cur_subrank = cur_subrank; ns_subranks = subranks;
+                   ns_s0 = s0; ns_s1 = s1; ns_hint0 = h0; ns_hint1 = h1;
+                   ns_zeros = zeros }
+
+(** val rsn_loop : rsn_state -> n -> n list -> rsn_state **)
+
+let rec rsn_loop st g = function
+| [] -> st
+| w :: r -> rsn_loop (rsn_word st g w) (N.add g (Npos XH)) r
+
+(** val iterN : ('a1 -> 'a1) -> nat -> 'a1 -> 'a1 **)
+
+let rec iterN f n0 x =
+  match n0 with
+  | O -> x
+  | S k -> iterN f k (f x)
+
+(** val rsn_new : bitvec -> rsnarrow outcome **)
+
+let rsn_new bv =
+  let st =
+    rsn_loop { ns_pairs = (N0 :: []); ns_next_rank = N0; ns_cur_subrank = N0;
+      ns_subranks = N0; ns_s0 = (N0 :: []); ns_s1 = (N0 :: []); ns_hint0 =
+      N0; ns_hint1 = N0; ns_zeros = N0 } N0 bv.bv_words
+  in
+  let nlines = N.div (len bv.bv_words) (Npos (XO (XO (XO XH)))) in
+  let left = N.sub rSN_BLOCK_SIZE (N.modulo nlines rSN_BLOCK_SIZE) in
+  let subranks =
+    iterN (fun s ->
+      N.coq_lor (N.modulo (N.shiftl s rSN_SUB_BITS_TAIL) m64)
+        st.ns_cur_subrank) (N.to_nat left) st.ns_subranks
+  in
+  let pairs = subranks :: st.ns_pairs in
+  let pairs0 =
+    if N.ltb N0 (N.modulo nlines rSN_BLOCK_SIZE)
+    then N0 :: (st.ns_next_rank :: pairs)
+    else pairs
+  in
+  bind (osub (N.div (len pairs0) (Npos (XO XH))) (Npos XH)) (fun last0 -> Val
+    { rsn_bv = bv; rsn_pairs = (rev pairs0); rsn_samples0 =
+    (rev (last0 :: st.ns_s0)); rsn_samples1 = (rev (last0 :: st.ns_s1)) })
+
+(** val rsn_block_rank : rsnarrow -> n -> n outcome **)
+
+let rsn_block_rank r block =
+  idx r.rsn_pairs (N.mul block (Npos (XO XH)))
+
+(** val rsn_sub_block_ranks : rsnarrow -> n -> n outcome **)
+
+let rsn_sub_block_ranks r block =
+  idx r.rsn_pairs (N.add (N.mul block (Npos (XO XH))) (Npos XH))
+
+(** val rsn_sub_block_rank : rsnarrow -> n -> n outcome **)
+
+let rsn_sub_block_rank r sub_block =
+  let block = N.div sub_block rSN_BLOCK_SIZE in
+  bind (rsn_block_rank r block) (fun br ->
+    let left = N.modulo sub_block rSN_BLOCK_SIZE in
+    bind (rsn_sub_block_ranks r block) (fun sr ->
+      bind (osub (Npos (XI (XI XH))) left) (fun d ->
+        bind
+          (oshr (Npos (XO (XO (XO (XO (XO (XO XH))))))) sr
+            (N.mul d rSN_SBR_BITS)) (fun sh -> Val
+          (N.add br (N.coq_land sh rSN_SBR_MASK))))))
+
+(** val rsn_rank1_unchecked : rsnarrow -> n -> n outcome **)
+
+let rsn_rank1_unchecked r i =
+  if N.eqb i N0
+  then Val N0
+  else let i0 = N.sub i (Npos XH) in
+       let sub_block = N.shiftr i0 (Npos (XO (XI XH))) in
+       bind (rsn_sub_block_rank r sub_block) (fun result ->
+         let sub_left =
+           N.add (N.coq_land i0 (Npos (XI (XI (XI (XI (XI XH))))))) (Npos XH)
+         in
+         bind
+           (if N.ltb
+                 (N.mul (N.shiftr sub_block (Npos (XI XH))) (Npos (XO (XO (XO
+                   XH))))) (len r.rsn_bv.bv_words)
+            then Val ()
+            else Fault UB) (fun _ ->
+           bind (idx r.rsn_bv.bv_words sub_block) (fun w -> Val
+             (N.add result
+               (popcount
+                 (N.modulo
+                   (N.shiftl w
+                     (N.sub (Npos (XO (XO (XO (XO (XO (XO XH))))))) sub_left))
+                   m64))))))
+
+(** val rsn_rank1 : rsnarrow -> n -> n option outcome **)
+
+let rsn_rank1 r i =
+  if (||) (bv_is_empty r.rsn_bv) (N.ltb (bv_len r.rsn_bv) i)
+  then Val None
+  else bind (rsn_rank1_unchecked r i) (fun v -> Val (Some v))
+
+(** val rsn_rank0 : rsnarrow -> n -> n option outcome **)
+
+let rsn_rank0 r i =
+  bind (rsn_rank1 r i) (fun k ->
+    match k with
+    | Some k0 -> bind (osub i k0) (fun z0 -> Val (Some z0))
+    | None -> Val None)
+
+(** val rsn_n_ones : rsnarrow -> n outcome **)
+
+let rsn_n_ones r =
+  if bv_is_empty r.rsn_bv
+  then Val N0
+  else let n1 = N.sub (bv_len r.rsn_bv) (Npos XH) in
+       bind (rsn_rank1 r n1) (fun a ->
+         bind (ounwrap a) (fun a0 ->
+           bind (bv_get r.rsn_bv n1) (fun g ->
+             bind (ounwrap g) (fun g0 -> Val
+               (N.add a0 (if g0 then Npos XH else N0))))))
+
+(** val rsn_n_zeros : rsnarrow -> n outcome **)
+
+let rsn_n_zeros r =
+  bind (rsn_n_ones r) (fun o -> osub (bv_len r.rsn_bv) o)
+
+(** val scan_while : (n -> n outcome) -> n -> n -> n -> nat -> n outcome **)
+
+let rec scan_while test i hint_start hint_end = function
+| O -> Fault OutOfFuel
+| S f ->
+  if N.ltb hint_start hint_end
+  then bind (test hint_start) (fun v ->
+         if N.ltb i v
+         then Val hint_start
+         else scan_while test i (N.add hint_start (Npos XH)) hint_end f)
+  else Val hint_start
+
+(** val scan_for : (n -> n outcome) -> n -> n -> n -> nat -> n outcome **)
+
+let rec scan_for test i position j = function
+| O -> Val position
+| S f ->
+  bind (test (N.add position j)) (fun v ->
+    if N.ltb i v
+    then bind (osub j (Npos XH)) (fun j1 -> Val (N.add position j1))
+    else if N.eqb j (Npos (XI (XI XH)))
+         then Val (N.add position j)
+         else scan_for test i position (N.add j (Npos XH)) f)
+
+(** val rsn_select_subblock : bool -> rsnarrow -> n -> (n * n) outcome **)
+
+let rsn_select_subblock one r i =
+  let samples = if one then r.rsn_samples1 else r.rsn_samples0 in
+  let hint = N.div i (if one then rSN_ONES_PER_HINT else rSN_ZEROS_PER_HINT)
+  in
+  bind (idx samples hint) (fun hs ->
+    bind (idx samples (N.add hint (Npos XH))) (fun he0 ->
+      let blk = fun b ->
+        if one
+        then rsn_block_rank r b
+        else bind (rsn_block_rank r b) (fun br ->
+               osub
+                 (N.mul
+                   (N.mul rSN_BLOCK_SIZE (Npos (XO (XO (XO (XO (XO (XO
+                     XH)))))))) b) br)
+      in
+      let sub0 = fun s ->
+        if one
+        then rsn_sub_block_rank r s
+        else bind (rsn_sub_block_rank r s) (fun sr ->
+               osub (N.mul (Npos (XO (XO (XO (XO (XO (XO XH))))))) s) sr)
+      in
+      bind
+        (scan_while blk i hs (N.add (Npos XH) he0) (S (length r.rsn_pairs)))
+        (fun hs' ->
+        bind (osub hs' (Npos XH)) (fun p0 ->
+          let position = N.mul p0 rSN_BLOCK_SIZE in
+          bind
+            (scan_for sub0 i position N0 (S (S (S (S (S (S (S (S O)))))))))
+            (fun position0 ->
+            bind (sub0 position0) (fun rank -> Val (position0, rank)))))))
+
+(** val rsn_select_unchecked : bool -> rsnarrow -> n -> n outcome **)
+
+let rsn_select_unchecked one r i =
+  bind (rsn_select_subblock one r i) (fun pat ->
+    let (block, rank) = pat in
+    bind
+      (if N.ltb
+            (N.mul (N.shiftr block (Npos (XI XH))) (Npos (XO (XO (XO XH)))))
+            (len r.rsn_bv.bv_words)
+       then Val ()
+       else Fault Panic) (fun _ ->
+      bind (idx r.rsn_bv.bv_words block) (fun w ->
+        bind (osub i rank) (fun d ->
+          bind (select_in_word (if one then w else notw w) d) (fun s -> Val
+            (N.add (N.mul block (Npos (XO (XO (XO (XO (XO (XO XH)))))))) s))))))
+
+(** val rsn_select1 : rsnarrow -> n -> n option outcome **)
+
+let rsn_select1 r i =
+  bind (rsn_n_ones r) (fun o ->
+    if N.leb o i
+    then Val None
+    else bind (rsn_select_unchecked true r i) (fun v -> Val (Some v)))
+
+(** val rsn_select0 : rsnarrow -> n -> n option outcome **)
+
+let rsn_select0 r i =
+  bind (rsn_n_zeros r) (fun z0 ->
+    if N.leb z0 i
+    then Val None
+    else bind (rsn_select_unchecked false r i) (fun v -> Val (Some v)))
+
+(** val rsn_get : rsnarrow -> n -> bool option outcome **)
+
+let rsn_get r i =
+  bv_get r.rsn_bv i
+
+type rswide = { rsw_bv : bitvec; rsw_meta : n list; rsw_samples0 : n list;
+                rsw_samples1 : n list; rsw_n_zeros : n }
+
+type rsw_state = { ws_meta : n list; ws_total : n; ws_cur : n; ws_pop : 
+                   n; ws_zeros : n; ws_s0 : n list; ws_s1 : n list;
+                   ws_hint0 : n; ws_hint1 : n }
+
+(** val rsw_line : rsw_state -> n -> n list -> rsw_state **)
+
+let rsw_line st b l =
+  if N.eqb (N.modulo b (Npos (XO (XO (XO XH))))) N0
+  then let p = ((N.add st.ws_total st.ws_pop), N0) in
+       let cur = N.add st.ws_total st.ws_pop in
+       let (total, pop) = p in
+       let ones = line_n_ones l in
+       let pop0 = N.add pop ones in
+       if N.ltb st.ws_hint1 (N.div (N.add total pop0) rSW_ONES_PER_HINT)
+       then let s1 = (N.div b (Npos (XO (XO (XO XH))))) :: st.ws_s1 in
+            let h1 = N.add st.ws_hint1 (Npos XH) in
+            let zeros =
+              N.add st.ws_zeros
+                (N.sub (Npos (XO (XO (XO (XO (XO (XO (XO (XO (XO XH))))))))))
+                  ones)
+            in
+            if N.ltb st.ws_hint0 (N.div zeros rSW_ZEROS_PER_HINT)
+            then let s0 = (N.div b (Npos (XO (XO (XO XH))))) :: st.ws_s0 in
+                 let h0 = N.add st.ws_hint0 (Npos XH) in
+                 let meta =
+                   if N.eqb
+                        (N.modulo (N.add b (Npos XH)) (Npos (XO (XO (XO
+                          XH))))) N0
+                   then cur :: st.ws_meta
+                   else st.ws_meta
+                 in
+                 { ws_meta = meta; ws_total = total; ws_cur = cur; ws_pop =
+                 pop0; ws_zeros = zeros; ws_s0 = s0; ws_s1 = s1; ws_hint0 =
+                 h0; ws_hint1 = h1 }
+            else let s0 = st.ws_s0 in
+                 let h0 = st.ws_hint0 in
+                 let meta =
+                   if N.eqb
+                        (N.modulo (N.add b (Npos XH)) (Npos (XO (XO (XO
+                          XH))))) N0
+                   then cur :: st.ws_meta
+                   else st.ws_meta
+                 in
+                 { ws_meta = meta; ws_total = total; ws_cur = cur; ws_pop =
+                 pop0; ws_zeros = zeros; ws_s0 = s0; ws_s1 = s1; ws_hint0 =
+                 h0; ws_hint1 = h1 }
+       else let s1 = st.ws_s1 in
+            let h1 = st.ws_hint1 in
+            let zeros =
+              N.add st.ws_zeros
+                (N.sub (Npos (XO (XO (XO (XO (XO (XO (XO (XO (XO XH))))))))))
+                  ones)
+            in
+            if N.ltb st.ws_hint0 (N.div zeros rSW_ZEROS_PER_HINT)
+            then let s0 = (N.div b (Npos (XO (XO (XO XH))))) :: st.ws_s0 in
+                 let h0 = N.add st.ws_hint0 (Npos XH) in
+                 let meta =
+                   if N.eqb
+                        (N.modulo (N.add b (Npos XH)) (Npos (XO (XO (XO
+                          XH))))) N0
+                   then cur :: st.ws_meta
+                   else st.ws_meta
+                 in
+                 { ws_meta = meta; ws_total = total; ws_cur = cur; ws_pop =
+                 pop0; ws_zeros = zeros; ws_s0 = s0; ws_s1 = s1; ws_hint0 =
+                 h0; ws_hint1 = h1 }
+            else let s0 = st.ws_s0 in
+                 let h0 = st.ws_hint0 in
+                 let meta =
+                   if N.eqb
+                        (N.modulo (N.add b (Npos XH)) (Npos (XO (XO (XO
+                          XH))))) N0
+                   then cur :: st.ws_meta
+                   else st.ws_meta
+                 in
+                 { ws_meta = meta; ws_total = total; ws_cur = cur; ws_pop =
+                 pop0; ws_zeros = zeros; ws_s0 = s0; ws_s1 = s1; ws_hint0 =
+                 h0; ws_hint1 = h1 }
+  else let p = (st.ws_total, st.ws_pop) in
+       let cur =
+         N.coq_lor (N.modulo (N.shiftl st.ws_cur rSW_BLK_BITS) m128) st.ws_pop
+       in
+       let (total, pop) = p in
+       let ones = line_n_ones l in
+       let pop0 = N.add pop ones in
+       if N.ltb st.ws_hint1 (N.div (N.add total pop0) rSW_ONES_PER_HINT)
+       then let s1 = (N.div b (Npos (XO (XO (XO XH))))) :: st.ws_s1 in
+            let h1 = N.add st.ws_hint1 (Npos XH) in
+            let zeros =
+              N.add st.ws_zeros
+                (N.sub (Npos (XO (XO (XO (XO (XO (XO (XO (XO (XO XH))))))))))
+                  ones)
+            in
+            if N.ltb st.ws_hint0 (N.div zeros rSW_ZEROS_PER_HINT)
+            then let s0 = (N.div b (Npos (XO (XO (XO XH))))) :: st.ws_s0 in
+                 let h0 = N.add st.ws_hint0 (Npos XH) in
+                 let meta =
+                   if N.eqb
+                        (N.modulo (N.add b (Npos XH)) (Npos (XO (XO (XO
+                          XH))))) N0
+                   then cur :: st.ws_meta
+                   else st.ws_meta
+                 in
+                 { ws_meta = meta; ws_total = total; ws_cur = cur; ws_pop =
+                 pop0; ws_zeros = zeros; ws_s0 = s0; ws_s1 = s1; ws_hint0 =
+                 h0; ws_hint1 = h1 }
+            else let s0 = st.ws_s0 in
+                 let h0 = st.ws_hint0 in
+                 let meta =
+                   if N.eqb
+                        (N.modulo (N.add b (Npos XH)) (Npos (XO (XO (XO
+                          XH))))) N0
+                   then cur :: st.ws_meta
+                   else st.ws_meta
+                 in
+                 { ws_meta = meta; ws_total = total; ws_cur = cur; ws_pop =
+                 pop0; ws_zeros = zeros; ws_s0 = s0; ws_s1 = s1; ws_hint0 =
+                 h0; ws_hint1 = h1 }
+       else let s1 = st.ws_s1 in
+            let h1 = st.ws_hint1 in
+            let zeros =
+              N.add st.ws_zeros
+                (N.sub (Npos (XO (XO (XO (XO (XO (XO (XO (XO (XO XH))))))))))
+                  ones)
+            in
+            if N.ltb st.ws_hint0 (N.div zeros rSW_ZEROS_PER_HINT)
+            then let s0 = (N.div b (Npos (XO (XO (XO XH))))) :: st.ws_s0 in
+                 let h0 = N.add st.ws_hint0 (Npos XH) in
+                 let meta =
+                   if N.eqb
+                        (N.modulo (N.add b (Npos XH)) (Npos (XO (XO (XO
+                          XH))))) N0
+                   then cur :: st.ws_meta
+                   else st.ws_meta
+                 in
+                 { ws_meta = meta; ws_total = total; ws_cur = cur; ws_pop =
+                 pop0; ws_zeros = zeros; ws_s0 = s0; ws_s1 = s1; ws_hint0 =
+                 h0; ws_hint1 = h1 }
+            else let s0 = st.ws_s0 in
+                 let h0 = st.ws_hint0 in
+                 let meta =
+                   if N.eqb
+                        (N.modulo (N.add b (Npos XH)) (Npos (XO (XO (XO
+                          XH))))) N0
+                   then cur :: st.ws_meta
+                   else st.ws_meta
+                 in
+                 { ws_meta = meta; ws_total = total; ws_cur = cur; ws_pop =
+                 pop0; ws_zeros = zeros; ws_s0 = s0; ws_s1 = s1; ws_hint0 =
+                 h0; ws_hint1 = h1 }
+
+(** val rsw_loop : rsw_state -> n -> n list -> nat -> rsw_state **)
+
+let rec rsw_loop st b ws = function
+| O -> st
+| S f ->
+  (match ws with
+   | [] -> st
+   | _ :: _ ->
+     rsw_loop (rsw_line st b (firstn (S (S (S (S (S (S (S (S O)))))))) ws))
+       (N.add b (Npos XH)) (skipn (S (S (S (S (S (S (S (S O)))))))) ws) f)
+
+(** val rsw_new : bitvec -> rswide outcome **)
+
+let rsw_new bv =
+  let nlines = N.div (len bv.bv_words) (Npos (XO (XO (XO XH)))) in
+  let st =
+    rsw_loop { ws_meta = []; ws_total = N0; ws_cur = N0; ws_pop = N0;
+      ws_zeros = N0; ws_s0 = (N0 :: []); ws_s1 = (N0 :: []); ws_hint0 = N0;
+      ws_hint1 = N0 } N0 bv.bv_words (N.to_nat nlines)
+  in
+  let total = N.add st.ws_total st.ws_pop in
+  let left = N.modulo nlines (Npos (XO (XO (XO XH)))) in
+  let meta =
+    if N.eqb left N0
+    then st.ws_meta
+    else (iterN (fun c ->
+           N.coq_lor (N.modulo (N.shiftl c rSW_BLK_BITS_TAIL) m128) st.ws_pop)
+           (N.to_nat (N.sub (Npos (XO (XO (XO XH)))) left)) st.ws_cur) :: st.ws_meta
+  in
+  let meta0 = (N.modulo (N.shiftl total rSW_SB_SHIFT) m128) :: meta in
+  bind (osub (len meta0) (Npos XH)) (fun last0 ->
+    bind (osub (bv_len bv) total) (fun nz -> Val { rsw_bv = bv; rsw_meta =
+      (rev meta0); rsw_samples0 = (rev (last0 :: st.ws_s0)); rsw_samples1 =
+      (rev (last0 :: st.ws_s1)); rsw_n_zeros = nz }))
+
+(** val rsw_n_zeros_q : rswide -> n **)
+
+let rsw_n_zeros_q r =
+  r.rsw_n_zeros
+
+(** val rsw_n_ones : rswide -> n outcome **)
+
+let rsw_n_ones r =
+  osub (bv_len r.rsw_bv) r.rsw_n_zeros
+
+(** val rsw_superblock_rank : rswide -> n -> n outcome **)
+
+let rsw_superblock_rank r block =
+  bind (idx r.rsw_meta block) (fun m -> Val (N.shiftr m rSW_SB_SHIFT_RD))
+
+(** val rsw_sub_block_rank : rswide -> n -> n outcome **)
+
+let rsw_sub_block_rank r sub_block =
+  let superblock = N.div sub_block (Npos (XO (XO (XO XH)))) in
+  bind (rsw_superblock_rank r superblock) (fun sr ->
+    let left = N.modulo sub_block (Npos (XO (XO (XO XH)))) in
+    if N.eqb left N0
+    then Val sr
+    else bind (idx r.rsw_meta superblock) (fun m -> Val
+           (N.add sr
+             (N.coq_land
+               (N.shiftr m
+                 (N.mul (N.sub (Npos (XI (XI XH))) left) rSW_BLK_BITS_RD))
+               rSW_BLK_MASK))))
+
+(** val rsw_rank1_unchecked : rswide -> n -> n outcome **)
+
+let rsw_rank1_unchecked r i =
+  if N.eqb i N0
+  then Val N0
+  else let i0 = N.sub i (Npos XH) in
+       let sub_block = N.shiftr i0 (Npos (XI (XO (XO XH)))) in
+       bind (rsw_sub_block_rank r sub_block) (fun result ->
+         let sub_left =
+           N.add
+             (N.coq_land i0 (Npos (XI (XI (XI (XI (XI (XI (XI (XI XH))))))))))
+             (Npos XH)
+         in
+         bind
+           (if N.ltb (N.mul sub_block (Npos (XO (XO (XO XH)))))
+                 (len r.rsw_bv.bv_words)
+            then Val ()
+            else Fault Panic) (fun _ ->
+           bind
+             (ounwrap
+               (bline_rank1 (line_of r.rsw_bv.bv_words sub_block) sub_left))
+             (fun k -> Val (N.add result k))))
+
+(** val rsw_rank1 : rswide -> n -> n option outcome **)
+
+let rsw_rank1 r i =
+  if (||) (bv_is_empty r.rsw_bv) (N.ltb (bv_len r.rsw_bv) i)
+  then Val None
+  else bind (rsw_rank1_unchecked r i) (fun v -> Val (Some v))
+
+(** val rsw_rank0 : rswide -> n -> n option outcome **)
+
+let rsw_rank0 r i =
+  bind (rsw_rank1 r i) (fun k ->
+    match k with
+    | Some k0 -> bind (osub i k0) (fun z0 -> Val (Some z0))
+    | None -> Val None)
+
+(** val rsw_rank0_unchecked : rswide -> n -> n outcome **)
+
+let rsw_rank0_unchecked r i =
+  bind (rsw_rank1_unchecked r i) (fun k -> osub i k)
+
+(** val rsw_select_subblock : bool -> rswide -> n -> (n * n) outcome **)
+
+let rsw_select_subblock one r i =
+  let samples = if one then r.rsw_samples1 else r.rsw_samples0 in
+  let hint = N.div i (if one then rSW_ONES_PER_HINT else rSW_ZEROS_PER_HINT)
+  in
+  bind (idx samples hint) (fun hs ->
+    bind (idx samples (N.add hint (Npos XH))) (fun he0 ->
+      let blk = fun b ->
+        if one
+        then rsw_superblock_rank r b
+        else bind (rsw_superblock_rank r b) (fun br ->
+               osub
+                 (N.mul
+                   (N.mul rSW_SUPERBLOCK_WORDS (Npos (XO (XO (XO (XO (XO (XO
+                     XH)))))))) b) br)
+      in
+      let sub0 = fun s ->
+        if one
+        then rsw_sub_block_rank r s
+        else bind (rsw_sub_block_rank r s) (fun sr ->
+               osub
+                 (N.mul
+                   (N.mul rSW_BLOCK_WORDS (Npos (XO (XO (XO (XO (XO (XO
+                     XH)))))))) s) sr)
+      in
+      bind
+        (scan_while blk i hs (N.add (Npos XH) he0) (S (length r.rsw_meta)))
+        (fun hs' ->
+        bind (osub hs' (Npos XH)) (fun p0 ->
+          let position = N.mul p0 (N.div rSW_SUPERBLOCK_WORDS rSW_BLOCK_WORDS)
+          in
+          bind
+            (scan_for sub0 i position N0 (S (S (S (S (S (S (S (S O)))))))))
+            (fun position0 ->
+            bind (sub0 position0) (fun rank -> Val (position0, rank)))))))
+
+(** val rsw_select_unchecked : bool -> rswide -> n -> n outcome **)
+
+let rsw_select_unchecked one r i =
+  bind (rsw_select_subblock one r i) (fun pat ->
+    let (block, rank) = pat in
+    bind
+      (if N.ltb (N.mul block (Npos (XO (XO (XO XH))))) (len r.rsw_bv.bv_words)
+       then Val ()
+       else Fault Panic) (fun _ ->
+      bind (osub i rank) (fun d ->
+        bind
+          (bline_select_loop (negb one) (line_of r.rsw_bv.bv_words block) d
+            N0 N0) (fun off -> Val
+          (N.add
+            (N.mul block (Npos (XO (XO (XO (XO (XO (XO (XO (XO (XO
+              XH))))))))))) off)))))
+
+(** val rsw_select1 : rswide -> n -> n option outcome **)
+
+let rsw_select1 r i =
+  bind (rsw_n_ones r) (fun o ->
+    if N.leb o i
+    then Val None
+    else bind (rsw_select_unchecked true r i) (fun v -> Val (Some v)))
+
+(** val rsw_select0 : rswide -> n -> n option outcome **)
+
+let rsw_select0 r i =
+  if N.leb r.rsw_n_zeros i
+  then Val None
+  else bind (rsw_select_unchecked false r i) (fun v -> Val (Some v))
+
+(** val rsw_get : rswide -> n -> bool option outcome **)
+
+let rsw_get r i =
+  bv_get r.rsw_bv i
+
+type inventories = { inv_n_sets : n; inv_block : z list; inv_sub : n list;
+                     inv_overflow : n list }
+
+(** val step_by : nat -> n list -> nat -> n list **)
+
+let rec step_by k l = function
+| O -> []
+| S f -> (match l with
+          | [] -> []
+          | x :: _ -> x :: (step_by k (skipn k l) f))
+
+(** val flush_block :
+    n list -> ((z list * n list) * n list) -> ((z list * n list) * n list)
+    outcome **)
+
+let flush_block curr st = match st with
+| (p, ovf) ->
+  let (blk, sub0) = p in
+  (match curr with
+   | [] -> Val st
+   | first :: _ ->
+     let last0 = last curr N0 in
+     bind (osub last0 first) (fun d ->
+       if N.ltb d dA_MAX_DIST
+       then let subs =
+              map (fun p0 ->
+                N.modulo (N.sub p0 first)
+                  (N.pow (Npos (XO XH)) (Npos (XO (XO (XO (XO XH)))))))
+                (step_by (N.to_nat dA_SUBBLOCK) curr (length curr))
+            in
+            Val ((((Z.of_N first) :: blk), (app (rev subs) sub0)), ovf)
+       else let v = Z.sub (Z.opp (Z.of_N (len ovf))) (Zpos XH) in
+            let k =
+              N.div (N.sub (N.add (len curr) dA_SUBBLOCK) (Npos XH))
+                dA_SUBBLOCK
+            in
+            Val (((v :: blk),
+            (app
+              (repeat
+                (N.sub (N.pow (Npos (XO XH)) (Npos (XO (XO (XO (XO XH))))))
+                  (Npos XH)) (N.to_nat k)) sub0)), (app (rev curr) ovf))))
+
+(** val inv_loop :
+    n list -> n list -> n -> ((z list * n list) * n list) -> n -> ((n
+    list * ((z list * n list) * n list)) * n) outcome **)
+
+let rec inv_loop ps curr_rev ncurr st n_sets =
+  match ps with
+  | [] -> Val ((curr_rev, st), n_sets)
+  | p :: r ->
+    let curr_rev0 = p :: curr_rev in
+    let ncurr0 = N.add ncurr (Npos XH) in
+    if N.eqb ncurr0 dA_BLOCK
+    then bind (flush_block (rev curr_rev0) st) (fun st' ->
+           inv_loop r [] N0 st' (N.add n_sets (Npos XH)))
+    else inv_loop r curr_rev0 ncurr0 st (N.add n_sets (Npos XH))
+
+(** val inv_new : bool -> bitvec -> inventories outcome **)
+
+let inv_new bit bv =
+  let ps = pi_collect bit bv pi_new (S (N.to_nat bv.bv_nbits)) in
+  bind (inv_loop ps [] N0 (([], []), []) N0) (fun pat ->
+    let (p, n_sets) = pat in
+    let (curr_rev, st) = p in
+    bind (flush_block (rev curr_rev) st) (fun pat0 ->
+      let (p0, ovf) = pat0 in
+      let (blk, sub0) = p0 in
+      Val { inv_n_sets = n_sets; inv_block = (rev blk); inv_sub = (rev sub0);
+      inv_overflow = (rev ovf) }))
+
+(** val nthZ : z list -> n -> z option **)
+
+let rec nthZ l i =
+  match l with
+  | [] -> None
+  | x :: l' -> if N.eqb i N0 then Some x else nthZ l' (N.pred i)
+
+(** val da_scan :
+    bool -> bitvec -> n -> n -> n -> nat -> ((n * n) * n) outcome **)
+
+let rec da_scan bit bv word reminder word_idx = function
+| O -> Fault OutOfFuel
+| S f ->
+  let popcnt = popcount word in
+  if N.ltb reminder popcnt
+  then Val ((word, reminder), word_idx)
+  else bind (bv_get_word bv (N.add word_idx (Npos XH))) (fun w ->
+         da_scan bit bv (if bit then w else notw w) (N.sub reminder popcnt)
+           (N.add word_idx (Npos XH)) f)
+
+(** val da_select : bool -> bitvec -> inventories -> n -> n option outcome **)
+
+let da_select bit bv inv i =
+  if N.leb inv.inv_n_sets i
+  then Val None
+  else let block = N.div i dA_BLOCK in
+       bind
+         (match nthZ inv.inv_block block with
+          | Some z0 -> Val z0
+          | None -> Fault Panic) (fun block_pos ->
+         if Z.ltb block_pos Z0
+         then let overflow_pos = Z.to_N (Z.sub (Z.opp block_pos) (Zpos XH)) in
+              bind
+                (idx inv.inv_overflow
+                  (N.add overflow_pos
+                    (N.coq_land i (N.sub dA_BLOCK (Npos XH))))) (fun p -> Val
+                (Some p))
+         else let subblock = N.div i dA_SUBBLOCK in
+              bind (idx inv.inv_sub subblock) (fun sb ->
+                let start_pos = N.add (Z.to_N block_pos) sb in
+                let reminder = N.coq_land i (N.sub dA_SUBBLOCK (Npos XH)) in
+                if N.eqb reminder N0
+                then Val (Some start_pos)
+                else let word_idx = N.shiftr start_pos (Npos (XO (XI XH))) in
+                     let word_shift =
+                       N.coq_land start_pos (Npos (XI (XI (XI (XI (XI XH))))))
+                     in
+                     bind (bv_get_word bv word_idx) (fun w ->
+                       let word =
+                         N.coq_land (if bit then w else notw w)
+                           (N.modulo
+                             (N.shiftl (N.sub m64 (Npos XH)) word_shift) m64)
+                       in
+                       bind
+                         (da_scan bit bv word reminder word_idx (S
+                           (length bv.bv_words))) (fun pat ->
+                         let (p, word_idx0) = pat in
+                         let (word0, reminder0) = p in
+                         bind (select_in_word word0 reminder0) (fun s -> Val
+                           (Some
+                           (N.add (N.shiftl word_idx0 (Npos (XO (XI XH)))) s)))))))
+
+type darray = { da_bv : bitvec; da_ones : inventories;
+                da_zeros : inventories option }
+
+(** val da_new : bool -> bitvec -> darray outcome **)
+
+let da_new s0 bv =
+  bind (inv_new true bv) (fun ones ->
+    bind
+      (if s0
+       then bind (inv_new false bv) (fun z0 -> Val (Some z0))
+       else Val None) (fun zeros -> Val { da_bv = bv; da_ones = ones;
+      da_zeros = zeros }))
+
+(** val da_select1 : darray -> n -> n option outcome **)
+
+let da_select1 d i =
+  da_select true d.da_bv d.da_ones i
+
+(** val da_select0 : bool -> darray -> n -> n option outcome **)
+
+let da_select0 s0 d i =
+  bind (oassert s0) (fun _ ->
+    bind (ounwrap d.da_zeros) (fun z0 -> da_select false d.da_bv z0 i))
+
+(** val da_len : darray -> n **)
+
+let da_len d =
+  bv_len d.da_bv
+
+(** val da_count_ones : darray -> n **)
+
+let da_count_ones d =
+  d.da_ones.inv_n_sets
+
+(** val da_count_zeros : darray -> n outcome **)
+
+let da_count_zeros d =
+  osub (bv_len d.da_bv) d.da_ones.inv_n_sets
+
+(** val da_get : darray -> n -> bool option outcome **)
+
+let da_get d i =
+  bv_get d.da_bv i
+
+(** val strictly_increasing : n list -> bool **)
+
+let rec strictly_increasing = function
+| [] -> true
+| x :: r ->
+  (match r with
+   | [] -> true
+   | y :: _ -> (&&) (N.ltb x y) (strictly_increasing r))
+
+(** val da_from_positions : bool -> n list -> darray outcome **)
+
+let da_from_positions s0 ps =
+  bind (oassert (strictly_increasing ps)) (fun _ ->
+    bind (bv_from_positions ps) (fun bv -> da_new s0 bv))
+
+(** val da_from_bools : bool -> bool list -> darray outcome **)
+
+let da_from_bools s0 bs =
+  bind (bv_from_bools bs) (fun bv -> da_new s0 bv)
